@@ -3,6 +3,7 @@ CONSTANTS
   K = 6
   N = 2
   MaxFreeze = 2
+  MaxCancel = 1
   Twin = "none"
   Record = TRUE
 INVARIANTS
